@@ -203,9 +203,12 @@ def rc_stage(run, prop, count, replay_cases=None):
     rc, out = C.sh("timeout 900 %s %d %d '' core" % (bins["rt_run"], run.seed, count), timeout=1000)
     run.oblige("harness-run rt_run core", rc == 0, out[-800:])
     cases = [json.loads(l) for l in out.splitlines() if l.startswith("{")]
+    # the stored minimal cases (direct host: long bursts into one stream, stale wakers ...) are replayed too and
+    # compared with the reference semantics of a command (C04_ok) beside the one of an app (RC_ok)
+    cases = corpus_cases(bins["rt_run"]) + cases
     if replay_cases:
         cases = [dict(c, size=c.get("size", 4)) for c in replay_cases]
-    res = eval_cases(run, prop, cases, "verdicts_RC")
+    res = eval_cases(run, prop, cases, "verdicts_C04R")
     v1 = [c for c, v in res if v == 1]; v2 = [c for c, v in res if v == 2]; v3 = [c for c, v in res if v == 3]
     for c, v in res:
         if v == 101: run.known_seen.setdefault("flat_task_never_evicted", {k: c.get(k) for k in ("idx", "seed", "prog", "handlers", "acts", "impl")})
